@@ -8,6 +8,7 @@ import (
 	"time"
 
 	"verif/lib/runner"
+	"verif/lib/vexp"
 )
 
 func parts(tier string) []runner.Part {
@@ -19,6 +20,17 @@ func parts(tier string) []runner.Part {
 
 func main() {
 	runner.Main(runner.Check{
+		RacePass: func(n int, scratch string) (int, []string) {
+			total, ps := 0, []string(nil)
+			for _, p0 := range []persona{{Redirect1: true, CDNExpires: 1}, {Redirect1: true, RedirectN: true, CDNExpires: 2}} {
+				for _, th := range [][][]string{{{"read"}, {"check"}}, {{"read", "read2"}, {"refresh"}}} {
+					d, p := vexp.RacePass(httpConcScenario(hconc{p0, th}), n)
+					total += d
+					ps = append(ps, p...)
+				}
+			}
+			return total, ps
+		},
 		ID:    "C18",
 		Level: "model_checking",
 		Rule:  "http-hist: every registry personality (direct/redirect on first and later requests, CDN URL expiring at the k-th request, 401 token challenge, failing mirror with its own header) x every history of depth<=3/4 over the request paths {range read, second read, check, refresh, cache} of the real remote fetcher with a per-host header and a docker authorizer; oracle over the complete request log: the header and the credentials/token appear only on requests to the host they were configured for. http-sched: fetch || check/refresh/fetch threads under the cooperative scheduler with httpFetcher.url/header watched. keychain: alphabet {PullImage(image, auth), RemoveImage(image)} over images {a.example/x:1, a.example/y:1, docker.io/library/z:1, z:1, index.docker.io/library/z:1} x auth {user/password, identity token, base64 auth} x server address {absent, matching with scheme, matching without scheme, other host with scheme, other host without scheme} + no auth, on a fresh cri.NewCRIKeychain with an in-memory backend; after every step all 25 (host, reference) pairs are queried. kc-states: every reference-model state (18^3) reached by its canonical history, then every operation (quick: 1, thorough: every 2) applied; the implementation state (reflection dump of every field + observation vector) must be the one of the resulting model state's canonical history, so merging is sound. kc-hist: every history up to depth 4 (thorough 5) without merging over a reduced auth menu. kc-rmid: removal by image id. states = distinct canonical keychain states (dump + observations) reached, transitions = operations applied, evaluations = histories executed; non-trivial = histories after which at least one query is answered with credentials",
